@@ -153,6 +153,9 @@ class FloatE(SymE):
     def sqrt(self, x):
         return self.e.spec_sqrt(x)
 
+    def code_sqrt(self, x):
+        return self.e.spec_sqrt(x)
+
     def use_contract(self, qual, summary):
         pass  # concrete run: the real callee body is executed
 
